@@ -7,6 +7,7 @@ package main
 import (
 	"fmt"
 	"go/types"
+	"runtime/debug"
 
 	"golang.org/x/tools/go/ssa"
 )
@@ -60,6 +61,11 @@ func (p *PathRun) threadExit(th *Thread) {
 	if r != nil {
 		if _, ok := r.(*threadKilled); ok {
 			return
+		}
+		switch r.(type) {
+		case *EngineError, *pathAbort, *boundExceeded, *GoPanic:
+		default:
+			r = engineErr("ENGINE-CRASH: %v at %s\n%s", r, th.callerStr(), string(debug.Stack()))
 		}
 		p.finish(r)
 		return
